@@ -122,6 +122,13 @@ pub fn guarded_allocations() -> u64 {
     GUARDED_ALLOCS.load(std::sync::atomic::Ordering::Relaxed)
 }
 
+/// Over-aligned and at least 256 MiB (the code under test's aligned multi-GiB tables): served by a mapping of its own,
+/// zeroed or not, so that `dealloc` can recognise such blocks by their layout alone.
+#[inline]
+fn huge(layout: Layout) -> bool {
+    layout.size() >= (256 << 20) && layout.align() > 16 && layout.align() <= PAGE
+}
+
 #[inline]
 fn guarded(size: usize) -> bool {
     (GUARD_MIN..=GUARD_MAX).contains(&size) && guard_mode() >= 2
@@ -231,6 +238,18 @@ unsafe impl GlobalAlloc for VerifAlloc {
             cap_exceeded(layout.size());
             return std::ptr::null_mut();
         }
+        if huge(layout) {
+            let p = libc::mmap(std::ptr::null_mut(), layout.size(), libc::PROT_READ | libc::PROT_WRITE, libc::MAP_PRIVATE | libc::MAP_ANONYMOUS | libc::MAP_NORESERVE, -1, 0);
+            if p == libc::MAP_FAILED {
+                return std::ptr::null_mut();
+            }
+            on_alloc(layout.size());
+            let poison = poison_word();
+            if poison != 0 {
+                poison_fill(p as *mut u8, layout.size(), poison);
+            }
+            return p as *mut u8;
+        }
         if guarded(layout.size()) {
             let (p, _) = guard_alloc(layout);
             if !p.is_null() {
@@ -260,6 +279,16 @@ unsafe impl GlobalAlloc for VerifAlloc {
             cap_exceeded(layout.size());
             return std::ptr::null_mut();
         }
+        if huge(layout) {
+            // std zeroes over-aligned blocks with memset, which would touch every page of a multi-GiB table; a fresh
+            // anonymous mapping is zero and stays non-resident until it is written
+            let p = libc::mmap(std::ptr::null_mut(), layout.size(), libc::PROT_READ | libc::PROT_WRITE, libc::MAP_PRIVATE | libc::MAP_ANONYMOUS | libc::MAP_NORESERVE, -1, 0);
+            if p == libc::MAP_FAILED {
+                return std::ptr::null_mut();
+            }
+            on_alloc(layout.size());
+            return p as *mut u8;
+        }
         if guarded(layout.size()) {
             let (p, stale) = guard_alloc(layout);
             if !p.is_null() {
@@ -279,6 +308,10 @@ unsafe impl GlobalAlloc for VerifAlloc {
 
     unsafe fn dealloc(&self, ptr: *mut u8, layout: Layout) {
         on_free(layout.size());
+        if huge(layout) {
+            libc::munmap(ptr as *mut libc::c_void, layout.size());
+            return;
+        }
         if guarded(layout.size()) {
             return guard_dealloc(ptr, layout);
         }
@@ -291,7 +324,7 @@ unsafe impl GlobalAlloc for VerifAlloc {
             cap_exceeded(new_size);
             return std::ptr::null_mut();
         }
-        if guard_mode() >= 2 && (guarded(layout.size()) || guarded(new_size)) {
+        if huge(layout) || huge(Layout::from_size_align_unchecked(new_size, layout.align())) || (guard_mode() >= 2 && (guarded(layout.size()) || guarded(new_size))) {
             let new_layout = Layout::from_size_align_unchecked(new_size, layout.align());
             let p = self.alloc(new_layout);
             if !p.is_null() {
